@@ -163,8 +163,8 @@ Proof.
     pose proof (span_spec (fun x => negb (x =? q)) s') as [H1 [_ H3]].
     destruct (span (fun x => negb (x =? q)) s') as [body r']. simpl in *.
     destruct r' as [|c' r'']; intros H; inversion H; subst; clear H.
-    - rewrite app_nil_r in *. split; [reflexivity | discriminate].
-    - split; [|discriminate]. rewrite negb_false_iff in H3. apply N.eqb_eq in H3. subst c'.
+    - split; [reflexivity | discriminate].
+    - split; [|discriminate]. apply negb_true_iff, negb_false_iff, N.eqb_eq in H3. subst c'.
       simpl. rewrite <- app_assoc. reflexivity. }
   destruct (match_quoted_with c_dq s) as [[t1 r1]|] eqn:E1.
   { intros H. inversion H; subst. apply (Q c_dq E1). }
@@ -175,8 +175,8 @@ Proof.
   destruct a as [|x a].
   - pose proof (span_spec (fun c => negb (in_chars c SPECIAL)) s) as [H2 _].
     destruct (span (fun c => negb (in_chars c SPECIAL)) s) as [a' b']. simpl in H2.
-    destruct a'; [discriminate|]. intros H; inversion H; subst. split; [reflexivity | discriminate].
-  - intros H; inversion H; subst. split; [reflexivity | discriminate].
+    destruct a'; [discriminate|]. intros H; inversion H; subst t r. split; [exact H2 | discriminate].
+  - intros H; inversion H; subst t r. split; [exact H1 | discriminate].
 Qed.
 
 Lemma match_first_total s : s <> [] -> exists t r, match_first s = Some (t, r).
